@@ -2,8 +2,21 @@
 
 use super::*;
 
+pub const CLOCK_HORIZON: u64 = 1 << 50;
+
 impl Sim {
     pub fn step(&mut self, op: &Op) -> Vec<Finding> {
+        let out = self.step_inner(op);
+        // the virtual clock stays below a horizon (about 13 days) so that the model's own schedule arithmetic cannot
+        // overflow: RTO-relative advances grow the learned RTO, which grows the next advance, exponentially
+        self.now = self.now.min(CLOCK_HORIZON);
+        out
+    }
+
+    fn step_inner(&mut self, op: &Op) -> Vec<Finding> {
+        if self.now >= CLOCK_HORIZON && matches!(op, Op::Advance(_) | Op::AdvanceHalfRtos(_) | Op::Timer(_)) {
+            return Vec::new();
+        }
         match op {
             Op::Send { method, attrs, small_buf } => self.do_send(*method, attrs, *small_buf),
             Op::Indication { method, attrs } => self.do_indication(*method, attrs),
@@ -329,8 +342,8 @@ impl Sim {
                     None => {
                         let rto = after.rto.map(|d| d.as_nanos() as u64).unwrap_or(self.cfg.rto_us * 1000);
                         let rc = self.cfg.rc.max(1);
-                        let slots: Vec<u64> = (1..rc).map(|k| self.now + ((1u64 << k) - 1) * rto).collect();
-                        let d = self.now + ((1u64 << (rc - 1)) - 1 + self.cfg.rm as u64) * rto;
+                        let slots: Vec<u64> = (1..rc).map(|k| self.now.saturating_add(((1u64 << k.min(40)) - 1).saturating_mul(rto))).collect();
+                        let d = self.now.saturating_add(((1u64 << (rc - 1).min(40)) - 1 + self.cfg.rm as u64).saturating_mul(rto));
                         (rto, slots, d)
                     }
                 };
